@@ -1,7 +1,7 @@
 """Sidecar contracts: which real function is checked against which specification."""
-from pyvc.verify import Contract, Cut, STR, INT, BOOL, OPT
+from pyvc.verify import Contract, Cut, STR, INT, BOOL, OPT, URLT
 
-from . import spec_parse
+from . import spec_parse, spec_url
 
 CONTRACTS = {}
 
@@ -14,6 +14,7 @@ def add(c):
 add(Contract(
     "yarl._parse:split_netloc", [("netloc", STR)], spec=spec_parse.split_netloc,
     raises=(ValueError,), props=("C07", "C17", "C19"),
+    opaque=True, shape=(OPT(STR), OPT(STR), OPT(STR), OPT(INT)), ensures=spec_parse.split_netloc_ensures,
     note="C07: split at last '@', first ':' of userinfo, ':' after host or ']'; C17: port *DIGIT 0..65535"))
 
 add(Contract(
@@ -39,4 +40,26 @@ add(Contract(
     "yarl._parse:unsplit_result",
     [("scheme", STR), ("netloc", STR), ("url", STR), ("query", STR), ("fragment", STR)],
     spec=spec_parse.unsplit_result, requires=spec_parse.unsplit_requires, props=("C07", "C03"),
+    opaque=True, shape=STR,
     note="precondition from the call sites: a path under an authority is empty or rooted"))
+
+add(Contract(
+    "yarl._parse:make_netloc",
+    [("user", OPT(STR)), ("password", OPT(STR)), ("host", OPT(STR)), ("port", OPT(INT)), ("encode", BOOL)],
+    spec=spec_parse.make_netloc, requires=spec_parse.make_netloc_requires,
+    props=("C07", "C17", "C11", "C03", "C19"), opaque=True, shape=STR,
+    note="RFC 3986 3.2 assembly of the authority"))
+
+# ---------------------------------------------------------------- yarl/_url.py: ports (C17)
+for _name in ("explicit_port", "port", "is_default_port"):
+    add(Contract(f"yarl._url:URL.{_name}", [("self", URLT)], spec=getattr(spec_url, _name),
+                 requires=spec_url.netloc_ok, props=("C17", "C19")))
+
+for _name in ("scheme", "raw_authority", "raw_user", "raw_password", "raw_host", "raw_path",
+              "raw_query_string", "raw_fragment", "absolute", "host_subcomponent"):
+    add(Contract(f"yarl._url:URL.{_name}", [("self", URLT)], spec=getattr(spec_url, _name),
+                 requires=spec_url.netloc_ok, props=("C07", "C09", "C19")))
+add(Contract("yarl._url:URL.host_port_subcomponent", [("self", URLT)], spec=spec_url.host_port_subcomponent,
+             requires=spec_url.netloc_ok, props=("C17", "C16", "C19")))
+add(Contract("yarl._url:URL.__str__", [("self", URLT)], spec=spec_url.str_,
+             requires=spec_url.str_requires, props=("C17", "C07", "C03", "C19")))
